@@ -11,7 +11,7 @@ from mcv.gen import cue as Q
 from mcv.ref import names as N
 
 AKAI_FILE = ["A", "A L", "A R", "A-L", "A -R", "A.", "A..", "-A", "A+", ".", "..", "+", "#", "A+B", "A B", "A-", "0",
-             "", "A.L", "-L", "-R", "A.WAV", "A  B"]
+             "", "A.L", "-L", "-R", "A.WAV", "A  B", "L", "R", "+L"]   # (bare channel letters: a pair whose stem is empty)
 AKAI_DIR = ["A", "A.", "A..", "-A", "A+", "A-", ".A", "#", "A+B", "A B", "0", "", ".", "..", "A  B"]
 HOSTILE = ["a", "a/b", "a\\b", "..", "../x", "/abs", ".", "", " ", "a.", "a .", "a..", "-a", '"q"', "a'b", "\x01a",
            "a:b", "a*?", "A", "a (2)", "\xe9", "a L", "a R", " -L", " -R", "/", "<\\>", "?/?", "a.wav", "A.WAV"]
@@ -208,7 +208,7 @@ class Check(CheckBase):
     id = "C06"
     level = "exploration"
     title = "Output paths are unique, file-system safe and confined to the destination"
-    rule = ("all ordered pairs (quick) / triples (thorough) of names over: 21 AKAI file names and 14 AKAI volume names "
+    rule = ("all ordered pairs (quick) / triples (thorough) of names over: 24 AKAI file names (incl. bare channel letters 'L', 'R', '+L'; all triples over {L, R, +L, +R, ' L', 'A L'} in both tiers) and 14 AKAI volume names "
             "(punctuation, blanks, dots, names equal after sanitising, L/R forms, pair stems ending in a dot); 25 hostile ASCII names (separators, "
             "'..', absolute path into the watched area, quotes, control and non-ASCII characters, '(2)' forms, empty stems) as "
             "Roland sample / performance / volume names (also below the pseudo volume that collects orphan performances, with and "
@@ -233,6 +233,9 @@ class Check(CheckBase):
         if self.quick:
             for t in itertools.product(["A", "A L", "A R", "A-L", "A-R", "-L", "-R"], repeat=3):
                 cases.append({"kind": "akai_files", "names": list(t)})
+        # names that ARE a channel letter (with and without a sanitised character / blank in front): stems of length 0
+        for t in itertools.product(["L", "R", "+L", "+R", " L", "A L"], repeat=3):
+            cases.append({"kind": "akai_files", "names": list(t)})
         # two L/R pairs with one stem need four names (both tiers)
         for t in itertools.product(["A", "A L", "A R", "A-L", "A-R"], repeat=4):
             cases.append({"kind": "akai_files", "names": list(t)})
